@@ -115,7 +115,9 @@ func runABI(e *core.Env, prop string) error {
 		p := func(k int64) *big.Int { return new(big.Int).Exp(two, big.NewInt(k), nil) }
 		sub := func(a *big.Int, b int64) *big.Int { return new(big.Int).Sub(a, big.NewInt(b)) }
 		return []*big.Int{p(63), sub(p(63), 1), sub(p(64), 32), sub(p(64), 1), p(64), sub(p(256), 1), p(255), big.NewInt(int64(n)), big.NewInt(int64(n) - 31),
-			big.NewInt(int64(n) - 32), big.NewInt(int64(n) + 1), big.NewInt(int64(n) - 1), big.NewInt(0), big.NewInt(32), big.NewInt(31), big.NewInt(1 << 32), p(62), big.NewInt(int64(n) + 32), new(big.Int).Add(p(64), big.NewInt(32)), sub(p(63), 32)}
+			big.NewInt(int64(n) - 32), big.NewInt(int64(n) + 1), big.NewInt(int64(n) - 1), big.NewInt(0), big.NewInt(32), big.NewInt(31), big.NewInt(1 << 32), p(62), big.NewInt(int64(n) + 32), new(big.Int).Add(p(64), big.NewInt(32)), sub(p(63), 32),
+			// lengths whose product with an element size (32, 64, ...) wraps around 2^64 to something small
+			p(58), new(big.Int).Add(p(58), big.NewInt(1)), p(59), new(big.Int).Add(p(59), big.NewInt(1)), new(big.Int).Add(p(59), big.NewInt(2)), p(60), p(61), new(big.Int).Add(p(61), big.NewInt(3))}
 	}
 	k := 0
 	for _, ec := range evs {
